@@ -11,27 +11,39 @@ use crate::engine::{StepOut, Sys};
 pub const PNS: [u64; 13] = [
     0, 1, 2, 3, 126, 127, 128, 129, 130, 131, 200, 260, 1_000_000,
 ];
+/// Packet numbers dense around the window edge after jumps of 126..=131 from 0, 1 and 5, and around
+/// the second window (property C04: a packet delivered twice is processed at most once)
+pub const PNS_EDGE: [u64; 20] = [
+    0, 1, 5, 126, 127, 128, 129, 130, 131, 132, 133, 134, 135, 136, 255, 256, 257, 258, 259, 300,
+];
 /// `WINDOW_SIZE` in spaces.rs: `1 + 128` packet numbers ending at the highest one seen
 pub const WINDOW_SIZE: u64 = 129;
 
 pub struct DedupSys {
     real: VerifDedup,
     seen: BTreeSet<u64>,
+    edge: bool,
 }
 
 impl Sys for DedupSys {
-    type Cfg = ();
+    /// `true`: the edge-dense alphabet
+    type Cfg = bool;
     type Op = u64;
     const NAME: &'static str = "dedup";
 
-    fn new(_: &()) -> Self {
+    fn new(edge: &bool) -> Self {
         Self {
             real: VerifDedup::new(),
             seen: BTreeSet::new(),
+            edge: *edge,
         }
     }
     fn ops(&self) -> Vec<u64> {
-        PNS.to_vec()
+        if self.edge {
+            PNS_EDGE.to_vec()
+        } else {
+            PNS.to_vec()
+        }
     }
     fn apply(&mut self, &pn: &u64) -> StepOut {
         let got = self.real.insert(pn);
@@ -79,11 +91,11 @@ impl Sys for DedupSys {
             .collect();
         format!("{} || {:?}", self.real.render(), live)
     }
-    fn cfg_json(_: &()) -> Value {
-        json!(null)
+    fn cfg_json(edge: &bool) -> Value {
+        json!(edge)
     }
-    fn cfg_parse(_: &Value) -> Option<()> {
-        Some(())
+    fn cfg_parse(v: &Value) -> Option<bool> {
+        Some(v.as_bool().unwrap_or(false))
     }
     fn op_json(op: &u64) -> Value {
         json!(["insert", op])
